@@ -583,6 +583,13 @@ static void build_graph(struct uftrace_opts *opts, struct uftrace_data *handle, 
 		struct uftrace_record *frs = task->rstack;
 		uint64_t addr = frs->addr;
 
+		/*
+		 * remember the time of the task's last record here: task->rstack
+		 * may point to the one static record of get_perf_record() which
+		 * the next perf event of any other task overwrites.
+		 */
+		task->timestamp_last = frs->time;
+
 		if (!fstack_check_opts(task, opts))
 			continue;
 
@@ -659,7 +666,7 @@ static void build_graph(struct uftrace_opts *opts, struct uftrace_data *handle, 
 		if (task->stack_count == 0)
 			continue;
 
-		last_time = task->rstack->time;
+		last_time = task->timestamp_last;
 
 		if (handle->time_range.stop)
 			last_time = time_range_stop(&handle->time_range);
